@@ -27,6 +27,7 @@
 
 /* Reference Streebog (ref_streebog.c, separate object, never instrumented). */
 void ref_streebog(int bits, const uint8_t *msg, size_t len, uint8_t *out);
+void ref_streebog_ex(int bits, const uint8_t *N0, const uint8_t *msg, size_t len, uint8_t *out);
 void ref_hmac_streebog(int bits, const uint8_t *key, size_t klen, const uint8_t *msg,
     size_t mlen, uint8_t *out);
 
@@ -48,6 +49,7 @@ typedef struct halg_s {
 	void	(*update)(void *ctx, const uint8_t *d, size_t n);
 	void	(*final)(void *ctx, uint8_t *dg);
 	size_t	(*fill)(const void *ctx);
+	void	(*set_count)(void *ctx, uint64_t lo, uint64_t hi);	/* absorbed-bytes counter := hi * 2^64 + lo */
 	int	(*live)(const void *ctx, hreg_t *r);	/* regions that are part of the abstract state */
 	int	(*sens)(hreg_t *r);			/* regions that may hold message / chaining data */
 	void	(*get_digest)(const void *d, size_t n, uint8_t *dg, size_t *dsz);
@@ -74,6 +76,7 @@ static void a_md5_force(void *c, const char *v) { (void)c; (void)v; }
 static void a_md5_update(void *c, const uint8_t *d, size_t n) { md5_update((md5_ctx_p)c, d, n); }
 static void a_md5_final(void *c, uint8_t *dg) { md5_final((md5_ctx_p)c, dg); }
 static size_t a_md5_fill(const void *c) { return ((size_t)(((const md5_ctx_t *)c)->count & MD5_MSG_BLK_SIZE_MASK)); }
+static void a_md5_set_count(void *c, uint64_t lo, uint64_t hi) { (void)hi; ((md5_ctx_p)c)->count = lo; }
 static int a_md5_live(const void *c, hreg_t *r) {
 	int i = 0;
 	HR(r, i, md5_ctx_t, hash, MD5_HASH_SIZE);
@@ -115,6 +118,7 @@ static void a_sha1_force(void *c, const char *v) {
 static void a_sha1_update(void *c, const uint8_t *d, size_t n) { sha1_update((sha1_ctx_p)c, d, n); }
 static void a_sha1_final(void *c, uint8_t *dg) { sha1_final((sha1_ctx_p)c, dg); }
 static size_t a_sha1_fill(const void *c) { return ((size_t)(((const sha1_ctx_t *)c)->count & SHA1_MSG_BLK_SIZE_MASK)); }
+static void a_sha1_set_count(void *c, uint64_t lo, uint64_t hi) { (void)hi; ((sha1_ctx_p)c)->count = lo; }
 static int a_sha1_live(const void *c, hreg_t *r) {
 	int i = 0;
 	HR(r, i, sha1_ctx_t, count, 8);
@@ -162,6 +166,7 @@ static size_t a_sha2_fill(const void *c) {
 	const sha2_ctx_t *x = (const sha2_ctx_t *)c;
 	return ((size_t)(x->count & (x->block_size - 1)));
 }
+static void a_sha2_set_count(void *c, uint64_t lo, uint64_t hi) { ((sha2_ctx_p)c)->count = lo; ((sha2_ctx_p)c)->count_hi = hi; }
 static int a_sha2_live(const void *c, hreg_t *r) {
 	const sha2_ctx_t *x = (const sha2_ctx_t *)c;
 	int i = 0;
@@ -222,6 +227,14 @@ static void a_gost_final(void *c, uint8_t *dg) { gost3411_2012_final((gost3411_2
 static size_t a_gost_fill(const void *c) {
 	size_t u = ((const gost3411_2012_ctx_t *)c)->buffer_usage;
 	return ((u <= GOST3411_2012_MSG_BLK_SIZE) ? u : GOST3411_2012_MSG_BLK_SIZE);
+}
+/* the Streebog context counts BITS in a 512-bit little-endian number */
+static void a_gost_set_count(void *c, uint64_t lo, uint64_t hi) {
+	gost3411_2012_ctx_p x = (gost3411_2012_ctx_p)c;
+	memset(x->counter, 0, sizeof(x->counter));
+	x->counter[0] = (lo << 3);
+	x->counter[1] = ((hi << 3) | (lo >> 61));
+	x->counter[2] = (hi >> 61);
 }
 static int a_gost_live(const void *c, hreg_t *r) {
 	int i = 0;
@@ -302,14 +315,14 @@ A_GOST_HBITS(512)
 #define A_SHA2_ROW(_b, _blk, _hs, _vars)				\
 	{ "sha2", "[" #_b "]", 0, _blk, _hs, sizeof(sha2_ctx_t), sizeof(hmac_sha2_ctx_t), \
 	  offsetof(hmac_sha2_ctx_t, k_opad), _vars, 1,			\
-	  a_sha2_##_b##_init, a_sha2_force, a_sha2_update, a_sha2_final, a_sha2_fill, a_sha2_live, a_sha2_sens, \
+	  a_sha2_##_b##_init, a_sha2_force, a_sha2_update, a_sha2_final, a_sha2_fill, a_sha2_set_count, a_sha2_live, a_sha2_sens, \
 	  a_sha2_##_b##_get_digest, a_sha2_##_b##_get_digest_str,	\
 	  HM(a_sha2_##_b##_h_init), HM(a_sha2_h_update), HM(a_sha2_h_final), HM(a_sha2_##_b##_h_oneshot), \
 	  HM(a_sha2_##_b##_h_get_digest), HM(a_sha2_##_b##_h_get_digest_str) }
 #define A_GOST_ROW(_b, _hs)						\
 	{ "gost3411_2012", "[" #_b "]", _b, 64, _hs, sizeof(gost3411_2012_ctx_t), sizeof(hmac_gost3411_2012_ctx_t), \
 	  offsetof(hmac_gost3411_2012_ctx_t, k_opad), GOST_VARS, 1,	\
-	  a_gost_##_b##_init, a_gost_force, a_gost_update, a_gost_final, a_gost_fill, a_gost_live, a_gost_sens, \
+	  a_gost_##_b##_init, a_gost_force, a_gost_update, a_gost_final, a_gost_fill, a_gost_set_count, a_gost_live, a_gost_sens, \
 	  a_gost_##_b##_get_digest, a_gost_##_b##_get_digest_str,	\
 	  HM(a_gost_##_b##_h_init), HM(a_gost_h_update), HM(a_gost_h_final), HM(a_gost_##_b##_h_oneshot), \
 	  HM(a_gost_##_b##_h_get_digest), HM(a_gost_##_b##_h_get_digest_str) }
@@ -318,12 +331,12 @@ A_GOST_HBITS(512)
 static const halg_t halgs[HALG_COUNT] = {
 	{ "md5", "", 0, 64, 16, sizeof(md5_ctx_t), sizeof(hmac_md5_ctx_t), offsetof(hmac_md5_ctx_t, k_opad),
 	  1, { "generic" }, 0,
-	  a_md5_init, a_md5_force, a_md5_update, a_md5_final, a_md5_fill, a_md5_live, a_md5_sens,
+	  a_md5_init, a_md5_force, a_md5_update, a_md5_final, a_md5_fill, a_md5_set_count, a_md5_live, a_md5_sens,
 	  a_md5_get_digest, a_md5_get_digest_str,
 	  HM(a_md5_h_init), HM(a_md5_h_update), HM(a_md5_h_final), HM(a_md5_h_oneshot), HM(a_md5_h_get_digest), HM(a_md5_h_get_digest_str) },
 	{ "sha1", "", 0, 64, 20, sizeof(sha1_ctx_t), sizeof(hmac_sha1_ctx_t), offsetof(hmac_sha1_ctx_t, k_opad),
 	  SHA1_VARS, 0,
-	  a_sha1_init, a_sha1_force, a_sha1_update, a_sha1_final, a_sha1_fill, a_sha1_live, a_sha1_sens,
+	  a_sha1_init, a_sha1_force, a_sha1_update, a_sha1_final, a_sha1_fill, a_sha1_set_count, a_sha1_live, a_sha1_sens,
 	  a_sha1_get_digest, a_sha1_get_digest_str,
 	  HM(a_sha1_h_init), HM(a_sha1_h_update), HM(a_sha1_h_final), HM(a_sha1_h_oneshot), HM(a_sha1_h_get_digest), HM(a_sha1_h_get_digest_str) },
 	A_SHA2_ROW(224, 64, 28, SHA2_64_VARS),
